@@ -416,6 +416,23 @@ class RenderContext:
             finally:
                 self.loops.pop()
 
+    @contextmanager
+    def carry_loop(self, length: int) -> Iterator[None]:
+        """Count a loop of _length_ iterations that is not on the loop stack.
+
+        For tags that iterate without pushing a `ForLoop` on to `self.loops`,
+        like `tablerow`, `include ... for` and `render ... for`. Loops nested
+        inside the with block, including those in partial templates, count
+        towards the loop iteration limit as if they were nested in a `for` tag.
+        """
+        self.raise_for_loop_limit(length)
+        carry = self.loop_iteration_carry
+        self.loop_iteration_carry = carry * length
+        try:
+            yield
+        finally:
+            self.loop_iteration_carry = carry
+
     def parentloop(self, token: TokenT) -> Undefined | object:
         """Return the last ForLoop object from the loop stack."""
         try:
